@@ -280,7 +280,7 @@ class Check:
         _TASKS = tasks
         _PARENT = self
         ctx = mp.get_context('fork')
-        tmo = float(os.environ.get('VERIF_TASK_TIMEOUT', '1500'))
+        tmo = float(os.environ.get('VERIF_TASK_TIMEOUT', '21600' if self.thorough else '3600'))
         with ctx.Pool(min(jobs, max(1, len(tasks)))) as pool:
             pending = [(i, pool.apply_async(_run_task, ((i, quick_ms),))) for i in range(len(tasks))]
             t_start = time.time()
